@@ -243,7 +243,7 @@ def _then_some_valid(f, c):
         if re.search(r'::then_some$', y.callee or '') and len(y.args) == 2:
             r1 = f.resolve_copy(y.args[1])
             r0 = f.resolve_copy(y.args[0])
-            if r1[0] == 'call' and r1[1] is c and r0[0] == 'call' and (r0[1].callee or '').endswith('::index_valid'):
+            if r1[0] == 'call' and r1[1].bb == c.bb and r0[0] == 'call' and (r0[1].callee or '').endswith('::index_valid'):
                 return True
     return False
 
